@@ -13,6 +13,7 @@ CONSTANTS
   IgnoreNegation = FALSE
   PipeFirst = FALSE
   SharedNested = FALSE
+  DeepStore = FALSE
   MaxCalls = 4
   MaxEdits = 3
 SPECIFICATION MSpec
